@@ -896,6 +896,19 @@ class DataArrayModel(metaclass=_DAMeta):
                                                 tok=("from-array", id(v)))
             arr.built_from = data
             return arr
+        if dims is not None and coords is None:
+            dims = list(dims)
+            if isinstance(data, NArr) and data.ndim == len(dims) and len(set(dims)) == len(dims):
+                # plain values re-labelled positionally (no coordinates)
+                return MArr(tuple(dims), {d: data.shape[k] for k, d in enumerate(dims)},
+                            lambda idx, data=data, dims=tuple(dims): data._elem(tuple(idx[d] for d in dims)), name=name, attrs=attrs)
+            if isinstance(data, DaskToken) and len(data._arr.dims) == len(dims) and len(set(dims)) == len(dims):
+                # the lazy `.data` of another array re-labelled positionally: stays lazy, chunks go with the axes
+                src = data._arr
+                old = list(src.dims)
+                return MArr(tuple(dims), {d: src.sizes[o] for d, o in zip(dims, old)},
+                            lambda idx, src=src, pairs=tuple(zip(dims, old)): src._elem({o: idx[d] for d, o in pairs}), name=name, attrs=attrs,
+                            dask={d: src.dask[o] for d, o in zip(dims, old)})
         raise EngineUnsupported("xr.DataArray(...) constructor form not modelled")
 
 
